@@ -28,3 +28,8 @@ for _f in sorted(_glob.glob(_os.path.join(_os.path.dirname(_os.path.abspath(__fi
     _m = _ilu.module_from_spec(_spec)
     _spec.loader.exec_module(_m)
     CHECKS[_m.PROPERTY] = _m.ENTRY
+
+# Only properties listed in checks/INTEGRATED (reviewed and run by the
+# integrator on the unchanged tree) are claimed in MANIFEST.json.
+_integrated = {l.strip() for l in open(_os.path.join(_os.path.dirname(_os.path.abspath(__file__)), "INTEGRATED")) if l.strip() and not l.startswith("#")}
+CHECKS = {k: v for k, v in CHECKS.items() if k in _integrated}
